@@ -403,3 +403,193 @@ Example C10_ex_one_spike_store :
   | None => None
   end = Some [[[0; 12]; [0; 22]]].
 Proof. vm_compute. repeat split; reflexivity. Qed.
+
+(* =============================================================================================
+   Stage 4: links (Link.v).  The two things C10_subset* take as given are instantiated with the
+   proved models of the neighbouring properties and the theorems are composed:
+     selected ids     = PV.C17.Model.route (SpikeSelector, n_chunks_kept = 20, subset_chunks=True, every
+                        template that has spikes, max_n_spikes_per_template), for EVERY oracle [choose]
+                        standing for np.random.choice that is admissible in C17's sense (Choose_OK);
+     r_best           = C05's get_template(t).channel_ids for t in range(n_templates) ([Best_linked]:
+                        best_of argsort ds = Some (r_best r)), for EVERY oracle [argsort] standing for
+                        np.argsort that returns a sorting permutation (C05's Argsort_ok);
+     r_chunks         = iter_base of the one array traces.chunk_bounds that C17 thins out and C03's
+                        export iterates over (C16).
+   Vocabulary (Link.v): [route_ids choose r grid nst] = C17's route on the spike samples / templates
+   of [r]; [Route_Spec] = the conclusion of C17_route (strictly increasing; every id an eligible spike:
+   exists, in a kept chunk; per template all eligible spikes or exactly nst); [Padded w chans row] =
+   row has w entries, entry k is chans[k] where it exists and -1 otherwise (order kept, cut at w);
+   [best_table] / [template_n_channels] = the table the code builds (an all -1 row for a template
+   without spikes); [width mnc ncl] = max(max_n_channels or ncl, ncl); [Source_ok] = loaded state of a
+   dataset with raw data and dense templates (rectangular recording of c channels, chunk bounds from 0
+   to n_samples, sorted spike samples inside it, templates in range, one position per channel,
+   n_closest_channels >= 1); [save_subset_code] = save_spikes_subset_waveforms written line by line
+   over C17.route, C05.get_template and C03.export (it reads neither r_best nor r_chunks). *)
+From PV Require Import C10.LinkSpec C10.Link.
+From PV Require C17.Model C17.Spec C17.Proofs3 C05.Model C05.Spec.
+
+(* 1. selection: the ids a fresh model finds in the store satisfy C17's statement -- for every admissible
+   np.random.choice -- the kept chunks are chunks of the exported chunk list, and "an increasing in-range
+   selection" (ids_ok, a hypothesis of C10_subset) is a consequence, not an assumption *)
+Theorem C10_link_selection :
+  forall (classify : string -> cell) (choose : nat -> list Z -> Z -> list Z) (d0 : disk)
+         (data : list (list Z)) (grid : list Z) (nst : Z),
+  C17.Proofs3.Choose_OK choose ->
+  rest_ok (d_rest d0) -> r_raw (d_rest d0) = Some data ->
+  r_chunks (d_rest d0) = iter_base grid -> sortedZ grid -> 1 <= zlen grid -> 1 <= nst ->
+  exists ivs ids,
+    C17.Model.chunks_kept grid 20 = Some (C17.Spec.flat ivs) /\
+    C17.Spec.Kept_Stride grid 20 (C17.Model.stride (zlen grid - 1) 20) ivs /\
+    (forall v, In v ivs -> In (mkiv (C17.Model.iv_a v) (C17.Model.iv_b v)) (r_chunks (d_rest d0))) /\
+    route_ids choose (d_rest d0) grid nst = Some ids /\
+    Route_Spec (r_samples (d_rest d0)) (r_templates (d_rest d0)) ivs nst ids /\
+    forall pre post w l, 0 <= w -> Forall (fun o => op_subset o = None) post ->
+      view (run classify d0 (pre ++ SaveSubset ids w :: post)%list) = Some l ->
+      exists st, v_store l = Some st /\ st_ids st = ids.
+Proof. exact link_selection. Qed.
+Print Assumptions C10_link_selection.
+
+(* 2. channel rows: row j of the reloaded channel table is the row of the code's table
+   (best_channels[spike_templates[ids[j]], :]) = C05's listed channels of the spike's template in C05's
+   order, cut to w entries and padded with -1; with dense storage and w >= n_closest_channels >= 1 nothing
+   is ever cut (C05: distinct channels among n_closest nearest ones), the row is the whole list followed by
+   -1s, and the list is what C05_dense_channels says *)
+Theorem C10_link_channels :
+  forall (classify : string -> cell) (argsort : list Z -> list nat) (d0 : disk) (pre post : list op)
+         (data : list (list Z)) (ds : C05.Model.dataset) (ids : list Z) (w : Z) (l : loaded),
+  C05.Spec.Argsort_ok argsort -> Best_linked argsort ds (d_rest d0) ->
+  rest_ok (d_rest d0) -> r_raw (d_rest d0) = Some data -> ids_ok (d_rest d0) ids -> 0 <= w ->
+  Forall (fun o => op_subset o = None) post ->
+  view (run classify d0 (pre ++ SaveSubset ids w :: post)%list) = Some l ->
+  exists st table,
+    v_store l = Some st /\ st_ids st = ids /\ List.length (st_ch st) = List.length ids /\
+    best_table argsort ds (r_templates (d_rest d0)) w = Some table /\
+    forall j i, nth_error ids j = Some i ->
+      exists t rec row,
+        nth_error (r_templates (d_rest d0)) (Z.to_nat i) = Some t /\ 0 <= t /\
+        C05.Model.get_template argsort ds (C05.Model.default_request (Z.to_nat t)) = Some rec /\
+        nth_error (st_ch st) j = Some row /\
+        nth_error table (Z.to_nat t) = Some row /\
+        Padded w (map Z.of_nat (C05.Model.t_channels rec)) row /\
+        (C05.Model.d_cols ds = None -> 1 <= C05.Model.d_nclosest ds <= w ->
+           row = (map Z.of_nat (C05.Model.t_channels rec) ++
+                  repeat (-1) (Z.to_nat w - List.length (C05.Model.t_channels rec)))%list /\
+           NoDup (C05.Model.t_channels rec) /\
+           exists T b, C05.Spec.Full_template ds (C05.Model.default_request (Z.to_nat t)) T /\ C05.Spec.Peak T b /\
+                       C05.Spec.Dense_channels (C05.Model.d_pos ds) (C05.Model.d_shanks ds) (C05.Model.d_nclosest ds)
+                                               (C05.Model.d_thr ds) T b (C05.Model.t_channels rec)).
+Proof. exact link_channels. Qed.
+Print Assumptions C10_link_channels.
+
+(* the code's table, row by row: chan_row of C05's list for a template that has spikes, all -1 for one that
+   has none (`template_id not in self.template_ids`) -- whatever get_template would list for it *)
+Theorem C10_link_table :
+  forall (argsort : list Z -> list nat) (ds : C05.Model.dataset) (r : rest) (nc : Z),
+  Best_linked argsort ds r ->
+  exists table, best_table argsort ds (r_templates r) nc = Some table /\ List.length table = n_templates ds /\
+    forall t row, nth_error table t = Some row ->
+      if memZ (Z.of_nat t) (r_templates r)
+      then exists best, nth_error (r_best r) t = Some best /\ row = chan_row nc best
+      else row = repeat (-1) (Z.to_nat nc).
+Proof. exact best_table_rows. Qed.
+Print Assumptions C10_link_table.
+
+(* 3. one closed statement from the raw data, the spike vectors and the template arrays / geometry to the
+   reloaded store: save_spikes_subset_waveforms(nst, mnc), then anything but a new extraction, then a fresh
+   load.  The store holds C17's selection; for each selected spike, its template's C05 channels followed by
+   -1s, and the raw zero-padded window on that row (C03's Window_Spec: raw sample inside the recording on a
+   real channel, zero outside it and on -1).  No oracle is left but np.random.choice and np.argsort. *)
+Theorem C10_link_windows :
+  forall (classify : string -> cell) (choose : nat -> list Z -> Z -> list Z) (argsort : list Z -> list nat)
+         (d0 : disk) (data : list (list Z)) (c : Z) (grid : list Z) (ds : C05.Model.dataset) (nst : Z)
+         (mnc : option Z),
+  C17.Proofs3.Choose_OK choose -> C05.Spec.Argsort_ok argsort ->
+  Source_ok (d_rest d0) data c grid ds -> Best_linked argsort ds (d_rest d0) -> 1 <= nst ->
+  let r := d_rest d0 in
+  let w := width mnc (C05.Model.d_nclosest ds) in
+  exists ivs ids,
+    C17.Model.chunks_kept grid 20 = Some (C17.Spec.flat ivs) /\
+    C17.Spec.Kept_Stride grid 20 (C17.Model.stride (zlen grid - 1) 20) ivs /\
+    route_ids choose r grid nst = Some ids /\
+    Route_Spec (r_samples r) (r_templates r) ivs nst ids /\
+    forall pre post l, Forall (fun o => op_subset o = None) post ->
+      view (run classify d0 (pre ++ SaveSubset ids w :: post)%list) = Some l ->
+      exists st, v_store l = Some st /\ st_ids st = ids /\
+        List.length (st_ch st) = List.length ids /\ List.length (st_w st) = List.length ids /\
+        forall j i, nth_error ids j = Some i ->
+          exists s t rec wv,
+            nth_error (r_samples r) (Z.to_nat i) = Some s /\
+            nth_error (r_templates r) (Z.to_nat i) = Some t /\ 0 <= t /\
+            C05.Model.get_template argsort ds (C05.Model.default_request (Z.to_nat t)) = Some rec /\
+            let row := (map Z.of_nat (C05.Model.t_channels rec) ++
+                        repeat (-1) (Z.to_nat w - List.length (C05.Model.t_channels rec)))%list in
+            zlen row = w /\
+            nth_error (st_ch st) j = Some row /\ nth_error (st_w st) j = Some wv /\
+            Window_Spec 0 data s (r_nsw r) row wv /\
+            NoDup (C05.Model.t_channels rec) /\
+            exists T b, C05.Spec.Full_template ds (C05.Model.default_request (Z.to_nat t)) T /\ C05.Spec.Peak T b /\
+                        C05.Spec.Dense_channels (C05.Model.d_pos ds) (C05.Model.d_shanks ds) (C05.Model.d_nclosest ds)
+                                                (C05.Model.d_thr ds) T b (C05.Model.t_channels rec).
+Proof. exact link_windows. Qed.
+Print Assumptions C10_link_windows.
+
+(* the operation of 1-3 is the code path: save_spikes_subset_waveforms composed line by line from C17's route,
+   the _template_n_channels table over C05's get_template, NumPy fancy indexing and C03's export.  Whenever it
+   returns it returns C10's step on the route's ids and the code's table width; in the regime of
+   C10_link_windows it does return. *)
+Theorem C10_link_code :
+  forall (classify : string -> cell) (choose : nat -> list Z -> Z -> list Z) (argsort : list Z -> list nat)
+         (d : disk) (grid : list Z) (ds : C05.Model.dataset) (nst : Z) (mnc : option Z),
+  Best_linked argsort ds (d_rest d) -> r_chunks (d_rest d) = iter_base grid ->
+  (forall d', save_subset_code choose argsort d grid ds nst mnc = Some d' ->
+     match r_raw (d_rest d) with
+     | None => d' = d
+     | Some _ => exists ids, route_ids choose (d_rest d) grid nst = Some ids /\
+                             d' = step classify d (SaveSubset ids (width mnc (C05.Model.d_nclosest ds)))
+     end) /\
+  (forall data c, C17.Proofs3.Choose_OK choose -> C05.Spec.Argsort_ok argsort ->
+     Source_ok (d_rest d) data c grid ds -> 1 <= nst ->
+     exists ids, route_ids choose (d_rest d) grid nst = Some ids /\
+       save_subset_code choose argsort d grid ds nst mnc =
+       Some (step classify d (SaveSubset ids (width mnc (C05.Model.d_nclosest ds))))).
+Proof.
+  intros classify choose argsort d grid ds nst mnc HB Hck. split.
+  - intros d'. now apply code_is_step.
+  - intros data c Hch AS HS Hn. now apply (code_defined classify choose argsort d data c).
+Qed.
+Print Assumptions C10_link_code.
+
+(* correspondence clause 30, as judged since stage 4 (LinkSpec.select_c17_b: C17's checker select_spec_b on
+   C17's kept chunks of the reader's chunk bounds), accepts an id array IF AND ONLY IF some admissible
+   np.random.choice makes C17's route return it: the clause is as sharp as a relational judgement can be *)
+Theorem C10_link_clause30 :
+  forall (r : rest) (grid : list Z) (nst : Z) (ids : list Z),
+  r_chunks r = iter_base grid -> 2 <= zlen grid -> sortedZ grid -> zlen (r_templates r) = zlen (r_samples r) ->
+  (select_c17_b r nst ids = true <->
+   exists choose, C17.Proofs3.Choose_OK choose /\ route_ids choose r grid nst = Some ids).
+Proof. exact clause30_exact. Qed.
+Print Assumptions C10_link_clause30.
+
+(* non-vacuity (Link.v): 22 samples x 4 channels in 22 chunks (every second chunk kept), three dense templates
+   (the last without spikes), five spikes *)
+Example C10_ex_link_instances :
+  best_of Base.NpSort.stable_argsort lk_ds = Some (r_best lk_rest) /\
+  route_ids C17.Model.choose0 lk_rest lk_grid 1 = Some [1; 2] /\
+  route_ids C17.Model.choose0 lk_rest lk_grid 5 = Some [1; 2; 4] /\
+  best_table Base.NpSort.stable_argsort lk_ds (r_templates lk_rest) 3 = Some [[2; 1; -1]; [0; 1; -1]; [-1; -1; -1]] /\
+  width (Some 3) 2 = 3 /\ width None 2 = 2 /\ width (Some 0) 2 = 2 /\ width (Some 1) 2 = 2.
+Proof. exact link_ex_instances. Qed.
+Example C10_ex_link_code :
+  save_subset_code C17.Model.choose0 Base.NpSort.stable_argsort lk_d0 lk_grid lk_ds 1 (Some 3) =
+    Some (step CText lk_d0 (SaveSubset [1; 2] 3)) /\
+  option_map v_store (view (run CText lk_d0 [SaveSubset [1; 2] 3; CloseModel; Reload])) =
+    Some (Some (mkstore [1; 2] [[0; 1; -1]; [2; 1; -1]]
+                        [[[10; 11; 0]; [20; 21; 0]]; [[32; 31; 0]; [42; 41; 0]]])) /\
+  select_c17_b lk_rest 1 [1; 2] = true /\ select_c17_b lk_rest 1 [1; 4] = true /\
+  select_c17_b lk_rest 1 [0; 1] = false /\ select_c17_b lk_rest 1 [2; 1] = false /\
+  select_c17_b lk_rest 1 [1; 2; 4] = false /\ select_c17_b lk_rest 5 [1; 2; 4] = true.
+Proof. exact link_ex_code. Qed.
+Example C10_ex_link_premises :
+  Source_ok lk_rest lk_data 4 lk_grid lk_ds /\ Best_linked Base.NpSort.stable_argsort lk_ds lk_rest /\
+  C17.Proofs3.Choose_OK C17.Model.choose0 /\ C05.Spec.Argsort_ok Base.NpSort.stable_argsort.
+Proof. exact link_ex_premises. Qed.
